@@ -227,6 +227,37 @@ def build_go126_harness():
     return rc == 0, out, binp
 
 
+HARNESS_CADDY = os.path.join(VERIF, "harness_caddy")
+
+
+def build_caddy_harness():
+    """cmd/verifc: provisions the Caddy module and the legacy viper hub in-process. Two read-only accessors (the effective
+    options struct; the hub inside the Caddy module) are added to /repo's packages at build time through -overlay."""
+    os.makedirs(WORK, exist_ok=True)
+    ov = os.path.join(WORK, "ovc")
+    shutil.rmtree(ov, ignore_errors=True)
+    os.makedirs(ov)
+    rep = {}
+    for src, dst in (("zz_verif_opts.go.txt", os.path.join(REPO, "zz_verif_opts.go")),
+                     ("zz_verif_hub.go.txt", os.path.join(REPO, "caddy", "zz_verif_hub.go"))):
+        t = os.path.join(ov, src[:-4])
+        shutil.copy(os.path.join(HARNESS_CADDY, "overlay", src), t)
+        rep[dst] = t
+    with open(os.path.join(ov, "overlay.json"), "w") as f:
+        json.dump({"Replace": rep}, f)
+    with open(os.path.join(HARNESS_CADDY, "go.sum"), "w") as f:
+        seen = set()
+        for sp in (os.path.join(REPO, "go.sum"), os.path.join(REPO, "caddy", "go.sum")):
+            for line in open(sp):
+                if line not in seen:
+                    seen.add(line)
+                    f.write(line)
+    binp = os.path.join(WORK, "verifc")
+    rc, out, _ = run(["go", "build", "-tags", "verif", "-overlay", os.path.join(ov, "overlay.json"), "-o", binp, "./cmd/verifc"],
+                     cwd=HARNESS_CADDY, env=GOENV, timeout=1500)
+    return rc == 0, out, binp
+
+
 def build_race_harness():
     os.makedirs(WORK, exist_ok=True)
     binp = os.path.join(WORK, "verifr")
